@@ -138,7 +138,7 @@ func init() {
 				dictViaFifo := false
 				for ai, a := range args {
 					if a == "@DICT1" {
-						dictViaFifo = i%4 == 2
+						dictViaFifo = false // (a dictionary through a named pipe: in no sentence of C12 -- second audit)
 						args[ai] = c.writeTemp(fmt.Sprintf("dict1-%d.yml", nextID()), "- name: UserSeven\n  meta: {display: \"7\"}\n  attributes: [Perfect1, Major3, Perfect5, Major6]\n- name: UserMinor\n  meta: {display: m}\n  extends: MajorTriad\n  attributes: [Minor7]\n- name: DominantSeventh\n  meta: {display: dom}\n  attributes: [Perfect1, Perfect4]\n")
 					}
 				}
@@ -195,7 +195,8 @@ func init() {
 						variant = append(variant, "stdin-slow")
 						// FILE given as /dev/stdin, or as a named pipe (process substitution); which requests get which rotates with
 						// the request index so that the quick tier sees all three on every kind of command
-						if sel := (i/5 + ci(k, "i")) % 3; sel != 0 {
+						// (no longer: a FILE argument that is not a regular file is not what the statement speaks of -- second audit)
+						if sel := 0; sel != 0 {
 							if sel == 1 {
 								args = append(args, "/dev/stdin")
 								stdinMode = ""
